@@ -4,12 +4,18 @@ MANIFEST.json is generated from this file by tools/gen_manifest.py."""
 MODULES = {
     "C17": "harness.c17_gae",
     "C10": "harness.c10_nstep",
+    "C09": "harness.c09_replay",
 }
 
 TECH = "symbolic execution of the real Python functions on z3-backed proxies (re-execution path exploration); each obligation decided per path by z3 as pc ∧ assumptions ∧ ¬obligation; sat models replayed on the real code"
 NOTE = "trusted: z3, CPython, the SymTensor proxy layer (differentially validated against real torch on every run), the listed stubs (networks/optimisers/RNG as arbitrary values within their contracts); floats are mathematical reals; sizes are the stated small bounds"
 
 CLAIMED = {
+    "C09": {
+        "level_text": "bounded symbolic verification of the real ReplayBuffer.add (one inductive step from an arbitrary ring state with SYMBOLIC count/cursor/size and contents, capacity N<=5(12), batch width n<=N: re-establishes 'row j mod N holds transition j with all its fields for the last min(N,count) transitions, len = that count'), the _init base case, sample() under an arbitrary permutation (stored indices only, no duplicates, fields together, batch not aliased to storage) and the MultiAgentReplayBuffer save/sample path (every field and agent of a sampled row carries the same stored transition; deque keeps the last N)",
+        "level_note": NOTE,
+        "technique": TECH,
+    },
     "C10": {
         "level_text": "bounded symbolic verification of the real MultiStepReplayBuffer.add/_get_n_step_info + ReplayBuffer.add under the two-buffer protocol of train_off_policy: for all rewards, done flags, gamma and labels with n_step<=3(6), envs<=2(3), every stored n-step transition equals the reference of the statement (discounted sum up to the first terminal slot of the window in any env, next_obs/done of that slot) and row k of both buffers describes the same (obs, action)",
         "level_note": NOTE,
@@ -31,4 +37,4 @@ NOT_APPLICABLE = {
 
 # designed in DESIGN.md §5 but the check is not built/registered yet (moves to CLAIMED when it lands)
 PENDING = {pid: "solver-based check designed (DESIGN.md §5) but not yet built in this tree; not claimed until it is"
-           for pid in ["C03", "C04", "C05", "C06", "C08", "C09", "C11", "C12", "C13", "C14", "C15", "C16", "C18", "C19"]}
+           for pid in ["C03", "C04", "C05", "C06", "C08", "C11", "C12", "C13", "C14", "C15", "C16", "C18", "C19"]}
